@@ -249,15 +249,100 @@ def replay_spaces(info):
     return None, {}
 
 
-REPLAYS = {"quote": replay_quote, "parens": replay_parens, "spaces": replay_spaces}
+def next_node_hint(ses, rep):
+    """format_function_call over a suffix list [s1, s2] (iterators modelled on the list): the hint handed to format_suffix says
+    ObscureWithoutParens exactly when the NEXT suffix is an index or a method call, and None for the last suffix"""
+    flagged = []
+    ex = ses.executor("lib", "default", inline=lambda n, f: False)
+    T = ex.enums
+    sfx = [ex.fresh_lazy("Suffix", "suffix1"), ex.fresh_lazy("Suffix", "suffix2")]
+    from ..summaries import opt_some, opt_none
+
+    def ident(ex_, st, a):
+        if isinstance(a, Ref):
+            return ("k", a.key)
+        v = deref_val(ex_, st, a)
+        return ("o", getattr(v, "oid", id(v)))
+
+    def h(ex_, st, callee, args, dty):
+        if "Suffix" not in callee:
+            return NotImplemented
+        c = canon(callee)
+        if re.search(r"Iter<'_, Suffix> as Iterator>::count$", c):
+            return Sym(z3.BitVecVal(2, 64), "usize")
+        if re.search(r"Peekable<.*Suffix.*> as Iterator>::next$", c) or re.search(r"Iter<'_, Suffix> as Iterator>::next$", c):
+            key = ("it",) + ident(ex_, st, args[0])
+            k = st.aux.get(key, 0)
+            st.aux[key] = k + 1
+            return opt_some(dty, RefV(sfx[k])) if k < 2 else opt_none(dty)
+        if c.endswith("Peekable::peek") or re.search(r"Peekable<.*Suffix.*>::peek$", c):
+            k = st.aux.get(("it",) + ident(ex_, st, args[0]), 0)
+            return opt_some(dty, RefV(RefV(sfx[k]))) if k < 2 else opt_none(dty)
+        return NotImplemented
+    ex.hooks = [h]
+    ex.max_block_visits = 3
+    ex.max_paths = 200000
+    ex.max_steps = 3000000
+    f = ses.need(ex, "format_function_call")
+    args = [RefV(ex.fresh_lazy(t.lstrip("&"), p)) if t.startswith("&") else ex.fresh_lazy(t, p) for p, t in f.params]
+    outs = ex.run(f, args)
+    d2 = ex.discr(None, sfx[1])
+    SI, SC = z3.BitVecVal(T.index("Suffix", "Index"), 64), z3.BitVecVal(T.index("Suffix", "Call"), 64)
+    call2 = ex.lazy_child(None, sfx[1], ("vfield", "Call", 0), "full_moon::ast::Call", ".Call.0")
+    dc2 = ex.discr(None, call2)
+    MC = z3.BitVecVal(T.index("Call", "MethodCall"), 64)
+    obscure_next = z3.Or(d2 == SI, z3.And(d2 == SC, dc2 == MC))
+    OB, NO = T.index("FunctionCallNextNode", "ObscureWithoutParens"), T.index("FunctionCallNextNode", "None")
+    n = 0
+    for pi, o in enumerate(outs):
+        if o.kind != "return":
+            continue
+        calls = find_calls(o.trace, lambda n_: n_.split("::")[-1] == "format_suffix")
+        for c in calls:
+            which = deref_val(ex, o.state, c[1][1])
+            i = 0 if which is sfx[0] else 1 if which is sfx[1] else None
+            if i is None:
+                continue
+            hint = deref_val(ex, o.state, c[1][3])
+            dh = ex.discr(o.state, hint)
+            want = z3.If(obscure_next, z3.BitVecVal(OB, 64), z3.BitVecVal(NO, 64)) if i == 0 else z3.BitVecVal(NO, 64)
+            pc = list(o.pc) + ex.all_discr_ranges()
+            if not ses.reachable(pc):
+                continue
+            n += 1
+            r, m = ses.obligation(f"next-node-hint/path{pi}/suffix{i + 1}", pc, dh != want,
+                                  "ObscureWithoutParens iff the next suffix is `.x` / `[x]` / `:m()`; None for the last suffix")
+            if r == "sat":
+                nxt = T.name("Suffix", m.eval(d2, model_completion=True).as_long()) if i == 0 else "none"
+                inner = T.name("Call", m.eval(dc2, model_completion=True).as_long()) if nxt == "Call" else ""
+                flagged.append((f"next-node-hint/path{pi}/suffix{i + 1}", f"call followed by {nxt} {inner}: the parentheses hint is {T.name('FunctionCallNextNode', m.eval(dh, model_completion=True).as_long())}",
+                                "hint", {"next": nxt, "inner": inner}))
+    rep.bounds["next_node_hint_obligations"] = n
+    if n == 0:
+        raise Inconclusive("format_function_call: no format_suffix call on the two-suffix list")
+    return flagged
+
+
+def replay_hint(info):
+    """a single-string / single-table call followed by each kind of suffix under call_parentheses = None"""
+    binp = common.native_build("default")
+    cases = [('f("x")("y")', 'f "x" "y"'), ("g({ 1 })()", "g { 1 }()"), ('f("x").k', 'f("x").k'), ('f("x"):m()', 'f("x"):m()'), ('f("x")[1]', 'f("x")[1]'),
+             ('require("mod")()', 'require "mod"()'), ('f({ 1 }).k', "f({ 1 }).k")]
+    for src, want in cases:
+        rc, out, err = common.run_stylua(binp, f"local v = {src}\n", ["--call-parentheses", "None"])
+        if rc == 0 and out.strip() != f"local v = {want}":
+            return f"call_parentheses=None: `{src}` is printed as `{out.strip()[10:]}`, expected `{want}`", {"source": src, "output": out}
+    return None, {}
+
+
+REPLAYS = {"quote": replay_quote, "parens": replay_parens, "spaces": replay_spaces, "hint": replay_hint}
 
 
 def run(ses, rep):
     rep.assumptions += ["the deprecated no_call_parentheses flag means `None` unless call_parentheses = Input",
                         "callee results other than the inlined option helpers are unconstrained"]
-    rep.outside += ["'in every layout path of every construct' beyond these functions; Luau type functions; the ObscureWithoutParens "
-                    "computation in format_function_call is covered by replay only"]
-    flagged = quote_choice(ses, rep) + call_parens(ses, rep) + spaces(ses, rep)
+    rep.outside += ["'in every layout path of every construct' beyond these functions; Luau type functions"]
+    flagged = quote_choice(ses, rep) + call_parens(ses, rep) + spaces(ses, rep) + next_node_hint(ses, rep)
     rep.samples.append({"flagged": [(f[0], f[1]) for f in flagged][:6]})
     for oid, what, kind, info in flagged:
         v, rec = REPLAYS[kind](info)
